@@ -413,6 +413,7 @@ func TestVerifC05Profiles(t *testing.T) {
 	n := h.N(1200, 30000)
 	for idx := 0; idx < n+c05LagCases; idx++ {
 		r := h.Begin(idx)
+		c05DeclReset(h) // round 9: registry of the pod objects declared in this case
 		if r == nil {
 			continue
 		}
@@ -747,6 +748,7 @@ func TestVerifC05ProfilesExhaustive(t *testing.T) {
 			continue
 		}
 		r := h.Begin(idx)
+		c05DeclReset(h) // round 9: registry of the pod objects declared in this case
 		if r == nil {
 			continue
 		}
